@@ -56,6 +56,13 @@ def acq_expander(prog, ci, branch):
                 except Unsupported:
                     v_ = None
                 ex.extra_returns.append((U(node.test)[:80], st_.lineno, v_))
+        # `if type(v) is not ndarray: v = array(v)` (and the isinstance spelling): the container changes, the value does not
+        tt_ = U(node.test)
+        if not node.orelse and len(node.body) == 1 and isinstance(node.body[0], ast.Assign) and isinstance(node.body[0].targets[0], ast.Name):
+            nm_ = node.body[0].targets[0].id
+            if tt_ in (f"type({nm_}) is not ndarray", f"not isinstance({nm_}, ndarray)", f"type({nm_}) != ndarray") \
+                    and U(node.body[0].value) in (f"array({nm_})", f"atleast_1d({nm_})", f"asarray({nm_})", f"array([{nm_}])"):
+                return "ignore"
         return "skip"
     ex.on_if = on_if
     return ex
@@ -100,7 +107,10 @@ def _neg_literal(node):
         v = ast.literal_eval(node)
     except Exception:
         return False
-    return isinstance(v, (int, float)) and v <= 0
+    # c <= 0: erfcx(-Z / sqrt 2) overflows for large positive Z.  c >= -6: the ordinary arm computes the normal cdf as
+    # 0.5 (1 + erf(Z / sqrt 2)), whose absolute rounding error (1e-16) is the whole value near Z = -8 and 1e-7 of it at Z = -6, and
+    # then cancels Z cdf against pdf: below about -6 that arm no longer returns expected improvement (8 % off at -10, -inf below -38)
+    return isinstance(v, (int, float)) and -6 <= v <= 0
 
 
 def total_derivative(obj):
@@ -143,8 +153,9 @@ def run(prog, tier):
                         # `not (Z >= c)`: the tail arm taken exactly when Z < c (and for a NaN, which is NaN on either arm)
                         okg = U(t.operand.left) == "Z" and _neg_literal(t.operand.comparators[0])
                     obs.append(struct_ob("tail-guard", qual(c, m_), okg,
-                                         f"the erfcx-based far-tail arm must be guarded by `Z < c` with c <= 0 (erfcx(-Z/sqrt 2) overflows "
-                                         f"for large positive Z, so the value would not be EI there); guard is `{U(t)}`",
+                                         f"the erfcx-based far-tail arm must be guarded by `Z < c` with -6 <= c <= 0 (erfcx(-Z/sqrt 2) overflows "
+                                         f"for large positive Z; the erf-based ordinary arm has lost its digits below Z of about -6: either way "
+                                         f"the value would not be EI there); guard is `{U(t)}`",
                                          ACQ, n.lineno))
         branches = [("orelse", "main"), ("body", "far-tail")] if has_branch else [("orelse", "")]
         for br, label in branches:
@@ -340,6 +351,13 @@ def run(prog, tier):
         why = f"append lines {l_x},{l_y}; refit line {gp_st[0].lineno} with {kw}; update line {l_up}"
     else:
         why = f"append lines {l_x},{l_y}; refits {len(gp_st)}; update line {l_up}"
+    # every evaluation handed in becomes part of the data: nothing returns before the update (an early exit for a point "already
+    # known" drops a repeated / nearby evaluation and leaves the incumbent as it was)
+    if l_up:
+        early_ = [x for st_ in body[:l_up - 1] for x in ast.walk(st_) if isinstance(x, ast.Return)]
+        if early_:
+            ok = False
+            why += f"; line {early_[0].lineno}: `{U(early_[0])}` leaves add_evaluation before the new evaluation is stored"
     # the three data arrays stay row-aligned: each is extended AT ITS END with the new evaluation's entry (old first, new second)
     misordered = []
     for st_ in ast.walk(ae):
